@@ -223,7 +223,8 @@ theorem C06_reaction_34_garbled (s : Sess) (m : InMsg) (hk : SeqChecked m) (hb :
 /-- the Logout reaction in a live session: exactly one Logout is written, numbered with the next outbound number; the
     expected inbound number is unchanged -/
 theorem C06_obs_logout (s : Sess) (hs : Live s) :
-    (initiateLogout s).log = .wire { mkOut "5" [] with seq := s.store.sender } :: savedObs s s.store.sender { mkOut "5" [] with seq := s.store.sender } :: s.log
+    (initiateLogout s).log = .wire { stamp s (mkOut "5" []) with seq := s.store.sender }
+      :: savedObs s s.store.sender { stamp s (mkOut "5" []) with seq := s.store.sender } :: s.log
     ∧ (initiateLogout s).store.target = s.store.target := by
   have := sendInReplyTo_live s (mkOut "5" []) hs plainAdmin_logout
   exact ⟨this.1, this.2.1⟩
@@ -232,21 +233,25 @@ theorem C06_obs_logout (s : Sess) (hs : Live s) :
     the expected inbound number is unchanged -/
 theorem C06_obs_reject_logout (s : Sess) (m : InMsg) (r : Nat) (t : Option Nat) (hs : Live s) :
     (initiateLogout (doReject s m r t false)).log =
-      .wire { mkOut "5" [] with seq := s.store.sender + 1 } :: savedObs s (s.store.sender + 1) { mkOut "5" [] with seq := s.store.sender + 1 }
-      :: .wire { rejectMsg s.cfg m r t false with seq := s.store.sender }
-      :: savedObs s s.store.sender { rejectMsg s.cfg m r t false with seq := s.store.sender } :: s.log
+      .wire { stamp s (mkOut "5" []) with seq := s.store.sender + 1 }
+      :: savedObs s (s.store.sender + 1) { stamp s (mkOut "5" []) with seq := s.store.sender + 1 }
+      :: .wire { stamp s ((rejectMsg s.cfg m r t false).inReplyTo m) with seq := s.store.sender }
+      :: savedObs s s.store.sender { stamp s ((rejectMsg s.cfg m r t false).inReplyTo m) with seq := s.store.sender } :: s.log
     ∧ (initiateLogout (doReject s m r t false)).store.target = s.store.target := by
-  obtain ⟨a1, a2, a3, a4, a5, a6⟩ := sendInReplyTo_live s (rejectMsg s.cfg m r t false) hs (plainAdmin_reject _ _ _ _)
-  obtain ⟨b1, b2, _⟩ := sendInReplyTo_live (doReject s m r t false) (mkOut "5" []) a6 plainAdmin_logout
+  obtain ⟨a1, a2, a3, a4, a5, a6⟩ := sendInReplyTo_live s ((rejectMsg s.cfg m r t false).inReplyTo m) hs (plainAdmin_reject _ _ _ _)
+  have a6' : Live (doReject s m r t false) := a6
+  obtain ⟨b1, b2, _⟩ := sendInReplyTo_live (doReject s m r t false) (mkOut "5" []) a6' plainAdmin_logout
+  have hst : stamp (doReject s m r t false) (mkOut "5" []) = stamp s (mkOut "5" []) := stamp_congr _ _ _ a5 a2
   refine ⟨?_, ?_⟩
   · show (sendInReplyTo (doReject s m r t false) (mkOut "5" [])).log = _
-    rw [b1]
-    show _ :: _ :: (sendInReplyTo s (rejectMsg s.cfg m r t false)).log = _
+    rw [b1, hst]
+    show _ :: _ :: (sendInReplyTo s ((rejectMsg s.cfg m r t false).inReplyTo m)).log = _
     rw [a1]
     show _ :: savedObs (sendInReplyTo s _) (sendInReplyTo s _).store.sender _ :: _ = _
     rw [a3]
     unfold savedObs
     have a3' : (doReject s m r t false).store.sender = s.store.sender + 1 := a3
+    have a5' : (doReject s m r t false).cfg = s.cfg := a5
     rw [a5, a3']
   · show (sendInReplyTo (doReject s m r t false) (mkOut "5" [])).store.target = _
     rw [b2]; exact a2
@@ -254,20 +259,21 @@ theorem C06_obs_reject_logout (s : Sess) (m : InMsg) (r : Nat) (t : Option Nat) 
 /-- the plain-Reject reaction in a live session: one Reject is written and the expected inbound number advances by one -/
 theorem C06_obs_reject (s : Sess) (m : InMsg) (r : Nat) (t : Option Nat) (hs : Live s) :
     (incrTarget (doReject s m r t false)).log =
-      .incT :: .wire { rejectMsg s.cfg m r t false with seq := s.store.sender }
-      :: savedObs s s.store.sender { rejectMsg s.cfg m r t false with seq := s.store.sender } :: s.log
+      .incT :: .wire { stamp s ((rejectMsg s.cfg m r t false).inReplyTo m) with seq := s.store.sender }
+      :: savedObs s s.store.sender { stamp s ((rejectMsg s.cfg m r t false).inReplyTo m) with seq := s.store.sender } :: s.log
     ∧ (incrTarget (doReject s m r t false)).store.target = s.store.target + 1 := by
-  obtain ⟨a1, a2, _⟩ := sendInReplyTo_live s (rejectMsg s.cfg m r t false) hs (plainAdmin_reject _ _ _ _)
+  obtain ⟨a1, a2, _⟩ := sendInReplyTo_live s ((rejectMsg s.cfg m r t false).inReplyTo m) hs (plainAdmin_reject _ _ _ _)
   refine ⟨?_, ?_⟩
-  · show Obs.incT :: (sendInReplyTo s (rejectMsg s.cfg m r t false)).log = _
+  · show Obs.incT :: (sendInReplyTo s ((rejectMsg s.cfg m r t false).inReplyTo m)).log = _
     rw [a1]
-  · show (sendInReplyTo s (rejectMsg s.cfg m r t false)).store.target + 1 = _
+  · show (sendInReplyTo s ((rejectMsg s.cfg m r t false).inReplyTo m)).store.target + 1 = _
     rw [a2]
 
 /-! ## the shape of a Reject
 
 `rejectMsg cfg m reason refTag business` is the message `doReject` hands to the sender (numbered and written by
-`sendInReplyTo`, see `C06_obs_*`: the wire observation is `{ rejectMsg … with seq := … }`, same fields).  49/56 of the outbound
+`sendInReplyTo`, see `C06_obs_*`: the wire observation is `{ stamp s ((rejectMsg …).inReplyTo m) with seq := … }`: same kind and
+fields, header tag 369 = the rejected message's MsgSeqNum when EnableLastMsgSeqNumProcessed is on).  49/56 of the outbound
 header are the session's own identity (not observed as fields of `OutMsg`; the string-level monitor checks them). -/
 
 /-- a Reject quotes the offending MsgSeqNum (RefSeqNum, 45) whenever the inbound one is readable, and only then -/
